@@ -18,12 +18,13 @@ PROPS["C09"] = dict(
     check_fn="check_case_C09",
     coq_shard=20,
     translators=[dict(driver="token", args=["feefactor"], out="Gen/TokenFeeFactor.v")],
-    streams=[dict(name="main", quick=256, thorough=8000)],
+    streams=[dict(name="main", quick=256, thorough=5000)],
     rule="histories of 8-30 (thorough: 8-68) messages issue / edit / mint / burn / transfer-owner / update-params by 4 actors "
          "(owners and strangers, ~7% malformed), 1-4 tokens, scales 0..18, initial supply up to 10^11, maximum up to 2^64-1, "
-         "mint amounts at the remaining room and room+-1, burns of half a unit / one min unit / everything, edits of the maximum at "
-         "floor(supply/10^scale) and +-1 and at the initial supply +-1, tax / mint-fee ratio / base fee over {0, default, 1, odd}; "
-         "non-trivial = a mint or edit is attempted after a burn, or by a non-owner, or after a transfer of ownership",
+         "mint amounts at the remaining room and room+-1 and at 2^64 / 2^128 / 2^200 / 2^255 (-1), burns of 2^128 / 2^255, burns of half a unit / one min unit / everything, edits of the maximum at "
+         "floor(supply/10^scale) and +-1 and at the initial supply +-1, tax / mint-fee ratio / base fee over {0, default, 1, odd, 2^195-1, 2^195}; "
+         "a quarter of the histories contain a token whose SYMBOL equals another token's MIN UNIT (other owner) with cross-token mints / burns / edits / "
+         "transfers through the shared string; non-trivial = a mint or edit is attempted after a burn, or by a non-owner, or after a transfer of ownership",
     codes={1: "token-supply-exceeds-cap", 2: "token-identity-rebound", 3: "token-non-owner-governs", 4: "token-non-mintable-minted",
            5: "token-burn-tally", 6: "token-fee-split", 7: "token-failed-message-changed-state"},
     explain={1: "the bank supply of a token's min unit exceeds max_supply * 10^scale after the step",
@@ -35,7 +36,7 @@ PROPS["C09"] = dict(
              7: "a rejected message changed the observed state"},
     trusted_base=_TRUSTED,
     assumptions=["the fee token is the native token (symbol = min unit = stake, scale 0), whose maximum the harness genesis raises to 2^64-1",
-                 "no sdkmath.Int overflow (amounts stay below 2^128)"],
+                 "message amounts below 2^256 (an sdk.Coin cannot carry more); mints / burns up to 2^255 are generated and refused, not aborted"],
 )
 
 PROPS["C10"] = dict(
@@ -47,29 +48,32 @@ PROPS["C10"] = dict(
     coq_shard=20,
     translators=[dict(driver="token", args=["feefactor"], out="Gen/TokenFeeFactor.v")],
     streams=[
-        dict(name="lossless", quick=4800, thorough=200000, check_fn="check_lossless", case_type="fncase", coq_shard=320,
+        dict(name="lossless", quick=4800, thorough=100000, check_fn="check_lossless", case_type="fncase", coq_shard=320,
              codes={4: "token-lossless-burn-out-of-range", 5: "token-lossless-mint-exceeds-worth", 6: "token-lossless-ratio-one-inexact"}),
-        dict(name="erc20", quick=224, thorough=6000),
+        dict(name="erc20", quick=224, thorough=3200),
     ],
     rule="stream lossless: LossLessSwap called as a pure function on (amount up to 2^128 incl. small, multiples of 10^|scale difference| +-1 and "
          "half-way cases of the 18th digit; ratio 1, 0.4, integers 2..10, random below / above 1 with 18 decimals; all scale pairs 0..18), "
          "non-trivial = the exact output has a fractional part; stream erc20: histories of 12-34 (thorough: 12-72) messages: issue, deploy ERC20 "
          "(authority / stranger / unregistered min unit), swap to / from ERC20 (own and foreign receivers, Ethereum-only holders, blocked receiver, "
-         "amounts at balance and balance+1, ERC20 disabled, EVM double misbehaving in 7 ways), swap-to-native through the EVM PostTxProcessing hook "
-         "(receipts with the SwapToNative log of the bound contract after its simulated burn, plus foreign logs; zero amounts, invalid / blocked receivers), fee-token swaps over a random swap registry, mint; a quarter of the histories contain a token whose SYMBOL equals another token's MIN UNIT (different scales, both "
+         "amounts at balance and balance+1, ERC20 disabled, EVM double misbehaving in 8 ways), ERC20 implementation upgrades (authority / stranger / bad address / reverting beacon), swap-to-native through the EVM PostTxProcessing hook "
+         "(receipts with the SwapToNative log of the bound contract after its simulated burn, plus foreign logs; zero amounts, invalid / blocked receivers), fee-token swaps over a random swap registry (also offers of 2^190..2^255, where LegacyDec overflows and the message aborts), mint; a quarter of the histories contain a token whose SYMBOL equals another token's MIN UNIT (different scales, both "
          "with an ERC20 contract, a ratio-1 registry entry targeting the clashing min unit) so that symbol-first and min-unit lookups disagree; "
          "burn, update-params; non-trivial = at least one successful and one failed conversion, or a successful conversion and a successful fee swap",
     codes={1: "token-to-erc20-not-conserved", 2: "token-from-erc20-not-conserved", 3: "token-failed-conversion-changed-state",
            4: "token-swap-burn-out-of-range", 5: "token-swap-mint-exceeds-worth", 6: "token-swap-ratio-one-inexact",
-           7: "token-swap-mints-unregistered-denom"},
+           7: "token-swap-mints-unregistered-denom", 8: "token-admin-message-moved-value"},
     explain={1: "swap to ERC20: native burn, sender debit and ERC20 credit are not all exactly the converted amount",
              2: "swap from ERC20 / swap-to-native hook: ERC20 burn, native mint and receiver credit are not all exactly the converted amount",
              3: "a failed conversion / message changed the native or the ERC20 side",
              4: "fee-token swap burned a negative amount or more than offered",
              5: "fee-token swap minted more than the burned amount is worth at the configured ratio and scales",
              6: "fee-token swap at ratio 1 is not exact or the dust is not below one output unit",
-             7: "fee-token swap minted a denom that is no token's min unit"},
+             7: "fee-token swap minted a denom that is no token's min unit",
+             8: "a successful DeployERC20 / UpgradeERC20 changed a bank supply, a bank balance or an ERC20 balance"},
     trusted_base=_TRUSTED,
     assumptions=["a transactional EVM (state rolled back with the transaction), which is what the double provides and what a real EVM keeper is",
-                 "positive ratios; scales 0..18; no sdkmath.Int / LegacyDec overflow (amounts up to 2^128, ratios below 2^70)"],
+                 "positive ratios; scales 0..18; pure-function stream: amounts up to 2^128, ratios below 2^70 (no LegacyDec overflow); message stream: offers up to 2^255, "
+                 "where the LegacyDec overflow panic of LossLessSwap is modelled as an abort (lossless_overflows)",
+                 "an ERC20 implementation upgrade moves no balances (Solidity code outside the module)"],
 )
